@@ -120,31 +120,59 @@ def abiTerm (a : Args) (x : Field) (idx : Nat) : List Wr :=
 theorem abiWrites_eq (f : Flags) (a : Args) :
     abiWrites f a = Field.order.flatMap fun x => if x.enabled f then abiTerm a x (abiIndex f x) else [] := rfl
 
+/-- the 64-bit ceiling division truncated to 32 bits is the true count whenever nothing overflows -/
+theorem wgCount_eq (g w : Nat) (h1 : g + w - 1 < 18446744073709551616) (h2 : (g + w - 1) / w < 4294967296) :
+    wgCount g w = nwgI g w := by
+  unfold wgCount nwgI M64 M32
+  rw [Nat.mod_eq_of_lt h1, Nat.mod_eq_of_lt h2]
+
 theorem wgCount_fit (g w : Nat) (h : g + w ≤ 4294967296) : wgCount g w = nwgI g w := by
-  unfold wgCount nwgI M32
-  by_cases h0 : g + w = 0
-  · have : g = 0 := by omega
-    have : w = 0 := by omega
-    subst_vars; rfl
-  · rw [Nat.mod_eq_of_lt (by omega)]
+  apply wgCount_eq g w (by omega)
+  exact Nat.lt_of_le_of_lt (Nat.div_le_self _ _) (by omega)
+
+/-- the ceiling quotient never exceeds the grid size -/
+theorem ceil_div_le (g w : Nat) (hw : 1 ≤ w) : (g + w - 1) / w ≤ g := by
+  have h1 : g ≤ g * w := Nat.le_mul_of_pos_right g hw
+  have h2 : (g + 1) * w = g * w + w := by rw [Nat.add_mul, Nat.one_mul]
+  have h3 : (g + w - 1) / w < g + 1 := (Nat.div_lt_iff_lt_mul hw).mpr (by rw [h2]; omega)
+  omega
+
+/-- **the repaired count register is the true count for every typed packet** (`GridSize : uint32`,
+    `WorkgroupSize : uint16`; a zero work-group size divides by zero in the code, the model gives 0 on
+    both sides) -/
+theorem wgCount_typed (g w : Nat) (hg : g < 4294967296) (hw : w < 65536) : wgCount g w = nwgI g w := by
+  apply wgCount_eq g w (by omega)
+  by_cases h0 : w = 0
+  · subst h0; simp
+  · exact Nat.lt_of_le_of_lt (ceil_div_le g w (by omega)) hg
 
 theorem nwgI_lt (g w : Nat) (h : g + w ≤ 4294967296) : nwgI g w < 4294967296 := by
   unfold nwgI
   exact Nat.lt_of_le_of_lt (Nat.div_le_self _ _) (by omega)
 
-theorem codeWriter_abi (f : Flags) (a : Args) (h : CountsFit f a) (x : Field) (hx : x.enabled f = true) (idx : Nat) :
+theorem countsOk_of_fit (f : Flags) (a : Args) (h : CountsFit f a) : CountsOk f a :=
+  ⟨fun hx => wgCount_fit _ _ (h.1 hx), fun hx => wgCount_fit _ _ (h.2.1 hx), fun hx => wgCount_fit _ _ (h.2.2 hx)⟩
+
+theorem countsOk_of_typed (f : Flags) (a : Args) (h : CountsTyped f a) : CountsOk f a :=
+  ⟨fun hx => wgCount_typed _ _ (h.1 hx).1 (h.1 hx).2, fun hx => wgCount_typed _ _ (h.2.1 hx).1 (h.2.1 hx).2,
+   fun hx => wgCount_typed _ _ (h.2.2 hx).1 (h.2.2 hx).2⟩
+
+theorem codeWriter_abi_ok (f : Flags) (a : Args) (h : CountsOk f a) (x : Field) (hx : x.enabled f = true) (idx : Nat) :
     codeWriter a x (4 * idx) = abiTerm a x idx := by
   obtain ⟨hcx, hcy, hcz⟩ := h
   have hdiv : 4 * idx / 4 = idx := Nat.mul_div_cancel_left idx (by decide)
   cases x <;> simp only [codeWriter, abiTerm, Field.value, w64, w32, M32, hdiv, List.length_cons, List.length_nil,
     List.range_succ, List.range_zero, List.nil_append, List.cons_append, List.map_cons, List.map_nil, Nat.add_zero,
     List.getD_cons_zero, List.getD_cons_succ, Nat.zero_add]
-  · rw [wgCount_fit _ _ (hcx hx)]
-  · rw [wgCount_fit _ _ (hcy hx)]
-  · rw [wgCount_fit _ _ (hcz hx)]
+  · rw [hcx hx]
+  · rw [hcy hx]
+  · rw [hcz hx]
+
+theorem codeWriter_abi (f : Flags) (a : Args) (h : CountsFit f a) (x : Field) (hx : x.enabled f = true) (idx : Nat) :
+    codeWriter a x (4 * idx) = abiTerm a x idx := codeWriter_abi_ok f a (countsOk_of_fit f a h) x hx idx
 
 /-- **the straight-line code issues exactly the ABI's writes** (helper form) -/
-theorem initS_eq_abiWrites (f : Flags) (a : Args) (h : CountsFit f a) : initS 8 4 f a = abiWrites f a := by
+theorem initS_eq_abiWrites_ok (f : Flags) (a : Args) (h : CountsOk f a) : initS 8 4 f a = abiWrites f a := by
   rw [initS_is_gen, table_eq]
   have := gen_layout f a Field.order 0
   rw [Nat.mul_zero] at this
@@ -158,8 +186,15 @@ theorem initS_eq_abiWrites (f : Flags) (a : Args) (h : CountsFit f a) : initS 8 
   funext x
   by_cases hx : x.enabled f = true
   · rw [if_pos hx, if_pos hx, ← abiIndex_eq]
-    exact codeWriter_abi f a h x hx _
+    exact codeWriter_abi_ok f a h x hx _
   · rw [if_neg hx, if_neg hx]
+
+theorem initS_eq_abiWrites (f : Flags) (a : Args) (h : CountsFit f a) : initS 8 4 f a = abiWrites f a :=
+  initS_eq_abiWrites_ok f a (countsOk_of_fit f a h)
+
+/-- **for every typed dispatch packet** the straight-line code issues exactly the ABI's writes -/
+theorem initS_eq_abiWrites_typed (f : Flags) (a : Args) (h : CountsTyped f a) : initS 8 4 f a = abiWrites f a :=
+  initS_eq_abiWrites_ok f a (countsOk_of_typed f a h)
 
 /-! ## register image: last writer = the field that owns the register -/
 
